@@ -5,10 +5,12 @@ Property theorems only.  The twin (OnosVerif/Tree/Model.lean) mirrors `BuildTree
 `addPathToTree`, `PrunePathValues`, `PrunePathMap` of pkg/utils/v2/tree/tree.go (the v3 copy
 differs only in value vs pointer slices) on the *text* of paths, as the Go code does; it is tied
 to both Go packages by the correspondence check `harness/props/c18`.  Specification-side
-definitions: OnosVerif/Tree/Spec.lean, OnosVerif/Tree/Flatten.lean; helper lemmas:
-OnosVerif/Proofs/{StrOrder,TreePrune}.lean.
+definitions: OnosVerif/Tree/Spec.lean, OnosVerif/Tree/Flatten.lean; the same algorithm on parsed
+paths: OnosVerif/Tree/Elems.lean; helper lemmas: OnosVerif/Proofs/{StrOrder,TreePrune,TreeObj,TreeScan,
+TreeOrd,TreeMember,TreeFull,TreeGroups,TreeExpected,TreeGood,TreeFlat,TreeMemberSpec,TreeBuild,
+TreeBridge,TreeSorted,TreeTop}.lean.
 -/
-import OnosVerif.Proofs.TreePrune
+import OnosVerif.Proofs.TreeTop
 
 namespace OnosVerif.Props.C18
 open OnosVerif.Tree
@@ -91,5 +93,105 @@ example : noSiblingPrefix samplePrune = false := by decide   -- `/a/b` vs `/a/b-
 example : noSiblingPrefix (samplePrune.take 4 ++ samplePrune.drop 5) = true := by decide
 example : (prunePathValues (samplePrune.take 4 ++ samplePrune.drop 5) true).map (fun p => String.ofList p.path) =
     ["/a/b-c", "/a/b/c", "/a/bc", "/a/l[k=10]/x", "/a/l[k=1]"] := by decide
+
+/-! ## The document is the configuration -/
+
+/-- Full statement of "flattening the document gives back the live leaves it was built from",
+    for the text-level twin of `BuildTree`, **for every iteration order of the key maps**:
+    let `S` be the path/values that survive pruning (as parsed paths, in the order pruning returns
+    them).  If they are `consistent` (simple element names and key values, keys in canonical order,
+    leaves without keys, no path a prefix of another, entries of one list node with one set of key
+    names, key leaves agreeing with the keys of their entry) and the key names are uniform per list
+    node (`uniformKeys`), then `BuildTree` succeeds and an independent flattener that knows the key
+    names reads from the document exactly the `Expected` leaves: the live leaves, each under its
+    own full key set, plus the key leaves of every entry — nothing lost, nothing added, no leaf
+    under another entry. -/
+theorem C18_flatten_build (rfc : Bool) (ord : List (Str × Str) → List (Str × Str)) (hord : IsOrder ord)
+    (pvs : List PV) (S : List Entry)
+    (hd : pathsDistinct pvs = true) (hp : prunePathValues pvs false = S.map Entry.toPV)
+    (hc : consistent rfc S = true) (hu : uniformKeys (S.map (·.1)) = true) :
+    ∃ m, buildTree rfc ord pvs = .ok (.obj m) ∧
+      ∀ y, y ∈ flattenDoc (schemaOf (S.map (·.1))) (.obj m) ↔ Expected rfc S y :=
+  flatten_build rfc ord hord pvs S hd hp hc hu
+
+/-- The document never depends on the order in which Go ranges over a key map: any two
+    iteration orders give the same result (document or error) for *every* input, well-formed or
+    not. -/
+theorem C18_keymap_order_irrelevant (rfc : Bool) (ord1 ord2 : List (Str × Str) → List (Str × Str))
+    (h1 : IsOrder ord1) (h2 : IsOrder ord2) (pvs : List PV) :
+    buildTree rfc ord1 pvs = buildTree rfc ord2 pvs := by
+  unfold buildTree
+  exact addAll_ord rfc ord1 ord2 h1 h2 _ _
+
+/-- On the text of a well-formed path `addPathToTree` does what its element-level reading
+    (`addElems`, the function the build theorem is proved for) does: the textual key parser, the
+    `strings.Index` arithmetic and the re-joined `refinePath` are faithful on that domain. -/
+theorem C18_text_eq_elements (rfc : Bool) (ord : List (Str × Str) → List (Str × Str)) (p : Path.GPath)
+    (v : Val) (node : Json) (h : pathOK p = true) :
+    addPath rfc ord ((Path.strPathElem p).length + 1) (Path.strPathElem p) v node = addElems rfc ord p v node :=
+  addPath_eq_addElems rfc ord p _ v node h (strPathElem_length p)
+
+/-! ### the preconditions are needed: three witnesses (each replayed on the Go code by the
+    correspondence corpus) -/
+
+private def sv (p v : String) : PV := { path := p.toList, val := .str v.toList, deleted := false }
+private def js (s : String) : Json := .str s.toList
+private def mem (k : String) (v : Json) : Str × Json := (k.toList, v)
+
+/-- Without `uniformKeys`: entries `{a=1}` and `{a=1,b=2}` exist, a path for `{a=1,c=5}` counts one
+    matching key in each (`foundkeys` is not reset by an entry that merely lacks a key), reaches 2 =
+    `len(keyMap)` and is **merged** into `{a=1,b=2}`; the key `c=5` is lost. -/
+theorem C18_merge_without_uniform_keys :
+    buildTree true id [sv "/l[a=1]/x" "v", sv "/l[a=1][c=5]/y" "v", sv "/l[a=1][b=2]/z" "v"] =
+      .ok (.obj [mem "l" (.arr [.obj [mem "a" (js "1"), mem "x" (js "v")],
+        .obj [mem "a" (js "1"), mem "b" (js "2"), mem "y" (js "v"), mem "z" (js "v")]])]) := by
+  decide
+
+/-- Without canonical key order in the text: `/l[b=2][a=1]/y` names the entry `{a=1,b=2}` but sorts
+    after `/l[a=1][b=3]/…`; the lookup finds `{a=1,b=2}`, then `{a=1,b=3}` resets `foundkeys`, and
+    the entry is **split** in two items. -/
+theorem C18_split_without_canonical_key_order :
+    buildTree true id [sv "/l[a=1][b=2]/x" "v", sv "/l[a=1][b=3]/x" "v", sv "/l[b=2][a=1]/y" "v"] =
+      .ok (.obj [mem "l" (.arr [.obj [mem "a" (js "1"), mem "b" (js "2"), mem "x" (js "v")],
+        .obj [mem "a" (js "1"), mem "b" (js "3"), mem "x" (js "v")],
+        .obj [mem "a" (js "1"), mem "b" (js "2"), mem "y" (js "v")]])]) := by
+  decide
+
+/-- Without consistent key leaves: the key leaf `/l[k=1]/k = "2"` overwrites the key of its own
+    entry, the next path of `{k=1}` no longer finds it and the entry is **split**. -/
+theorem C18_split_with_inconsistent_key_leaf :
+    buildTree true id [sv "/l[k=1]/k" "2", sv "/l[k=1]/x" "v"] =
+      .ok (.obj [mem "l" (.arr [.obj [mem "k" (js "2")], .obj [mem "k" (js "1"), mem "x" (js "v")]])]) := by
+  decide
+
+/-! non-vacuity of `C18_flatten_build`: nested and multi-key lists, numeric and boolean keys with
+    typed key leaves, sibling names sharing prefixes, a wide integer, an EMPTY value, and a
+    tombstone whose subtree is pruned -/
+
+private def el (n : String) (ks : List (String × String) := []) : Path.Elem :=
+  { name := n.toList, keys := ks.map fun kt => (kt.1.toList, kt.2.toList) }
+
+def sampleLive : List Entry :=
+  [([el "a", el "b"], .int (-3) true),
+   ([el "a", el "b-c"], .str "x".toList),
+   ([el "a", el "bc"], .empty),
+   ([el "a", el "l" [("k", "10")], el "x"], .bool true),
+   ([el "a", el "l" [("k", "1")], el "k"], .uint 1 false),
+   ([el "a", el "l" [("k", "1")], el "x"], .str "v".toList),
+   ([el "c", el "m" [("j", "true"), ("k", "2")], el "j"], .bool true),
+   ([el "c", el "m" [("j", "true"), ("k", "2")], el "n" [("k", "2")], el "y"], .str "w".toList)]
+
+def samplePVs : List PV :=
+  { path := "/c/m[j=true][k=2]/n[k=3]/y".toList, val := .str "gone".toList, deleted := false } ::
+  { path := "/c/m[j=true][k=2]/n[k=3]".toList, val := .empty, deleted := true } ::
+  sampleLive.reverse.map Entry.toPV
+
+example : pathsDistinct samplePVs = true := by decide
+example : prunePathValues samplePVs false = sampleLive.map Entry.toPV := by decide
+example : consistent true sampleLive = true := by decide
+example : uniformKeys (sampleLive.map (·.1)) = true := by decide
+example : IsOrder id := fun _ => List.Perm.refl _
+example : IsOrder List.reverse := fun m => List.reverse_perm m
+example : pathOK [el "c", el "m" [("j", "true"), ("k", "2")], el "n" [("k", "2")], el "y"] = true := by decide
 
 end OnosVerif.Props.C18
